@@ -61,35 +61,73 @@ def _prog_of_counterexample(out):
     return " ".join(m.group(1).split()) if m else None
 
 
-def model_checks(rep, tier):
-    suffix = "" if tier == "quick" else "5"
+def _liveness(r):
+    """vlib.tlc does not know the wording of a violated PROPERTY: recover it from the kept output"""
+    if r.error and "Temporal property" in (r.out or "") and "was violated" in (r.out or ""):
+        r.violation = r.out[r.out.index("Temporal property") - 10:][:3000]
+        r.error = None
+    return r
+
+
+def tlc_jobs(tier):
+    """all TLC runs of (M) and (G): name -> kwargs for vlib.tlc.run.
+    PassLoop_Gen_<class>.cfg is model check and export in one run (all invariants, Termination, every program
+    printed with the model's prediction); thorough adds the 5-item PassLoop_MC runs."""
+    jobs = {}
     for c in CLASSES:
-        cfg = "PassLoop_MC_%s%s.cfg" % (c, suffix)
-        r = tlc.must(tlc.run("PassLoop_MC", cfg, workers=4, timeout=1700, mem="10g", collect=False), cfg)
+        jobs["Gen_" + c] = dict(module="PassLoop_Gen", cfg="PassLoop_Gen_%s.cfg" % c, tags=("OUT",), collect=True,
+                                mem="8g")
+        jobs["Sim_" + c] = dict(module="PassLoop_Gen", cfg="PassLoop_Sim_%s.cfg" % c, tags=("OUT",), collect=True,
+                                simulate=(100 if tier == "quick" else 3000), depth=140)
+        if tier != "quick":
+            jobs["MC_" + c] = dict(module="PassLoop_MC", cfg="PassLoop_MC_%s5.cfg" % c, mem="12g", workers=4)
+    jobs["MC_err"] = dict(module="PassLoop_MC", cfg="PassLoop_MC_err.cfg")
+    jobs["MC_pinned"] = dict(module="PassLoop_MC", cfg="PassLoop_MC_68k_pinned.cfg")
+    jobs["MC_pinned_char"] = dict(module="PassLoop_MC", cfg="PassLoop_MC_68k_pinned_char.cfg")
+    jobs["MC_Y"] = dict(module="PassLoop_MC", cfg="PassLoop_MC_Y.cfg")
+    return jobs
+
+
+def run_tlc_jobs(tier):
+    jobs = tlc_jobs(tier)
+    ncpu = int(os.environ.get("VERIF_JOBS", os.cpu_count() or 4))
+    par = max(1, min(len(jobs), ncpu // 2))
+
+    def one(name):
+        kw = dict(jobs[name])
+        kw.setdefault("workers", 2)
+        kw.setdefault("collect", False)
+        kw.setdefault("mem", "6g")
+        if "simulate" not in kw:
+            kw["extra"] = ["-lncheck", "final"]
+        r = tlc.run(kw.pop("module"), kw.pop("cfg"), timeout=1700, keep_out=True, **kw)
+        return name, _liveness(r)
+    # long ones first
+    order = sorted(jobs, key=lambda n: (not (n[:3] == "MC_" and n[3:] in CLASSES), not n.startswith("Gen_"), n))
+    return dict(pmap(one, order, workers=par))
+
+
+def model_checks(rep, tier, R):
+    names = ["MC_err"] + (["MC_" + c for c in CLASSES] if tier != "quick" else [])
+    for n in names:
+        r = tlc.must(R[n], "PassLoop_MC " + n)
         if r.violation:
             raise CheckError("the repaired pass-loop design violates its own properties (%s): %s"
-                             % (cfg, r.violation[:1500]))
-        rep.model("PassLoop_MC(%s)" % cfg, r)
-    r = tlc.must(tlc.run("PassLoop_MC", "PassLoop_MC_err.cfg", workers=2, timeout=600, collect=False), "err cfg")
-    if r.violation:
-        raise CheckError("PassLoop_MC_err: %s" % r.violation[:1500])
-    rep.model("PassLoop_MC(err)", r)
+                             % (n, r.violation[:1500]))
+        rep.model("PassLoop_MC(%s, repaired algorithm)" % n[3:], r)
     # the algorithm of the pinned tree: the livelock must be found, and only that one
-    r = tlc.must(tlc.run("PassLoop_MC", "PassLoop_MC_68k_pinned.cfg", workers=4, timeout=900, collect=False,
-                         keep_out=True), "pinned cfg")
-    if not r.violation or "Termination" not in r.out:
+    r = tlc.must(R["MC_pinned"], "pinned cfg")
+    if not r.violation or "Termination" not in r.violation:
         raise CheckError("PassLoop(Fixed=FALSE) no longer shows the padding livelock: the model lost the defect")
     rep.model("PassLoop_MC(68k, pinned algorithm)", r)
     rep.part("PassLoop_MC(68k, pinned algorithm)", termination="violated (expected: livelock of the pinned tree)",
              lasso_program=_prog_of_counterexample(r.out))
-    r = tlc.must(tlc.run("PassLoop_MC", "PassLoop_MC_68k_pinned_char.cfg", workers=4, timeout=900, collect=False),
-                 "pinned char cfg")
+    r = tlc.must(R["MC_pinned_char"], "pinned char cfg")
     if r.violation:
         raise CheckError("pinned algorithm: a non-terminating run without a patched label: %s" % r.violation[:1500])
     rep.model("PassLoop_MC(68k, pinned, LivelockOnlyWhenPatched)", r)
-    r = tlc.must(tlc.run("PassLoop_MC", "PassLoop_MC_Y.cfg", workers=4, timeout=900, collect=False, keep_out=True),
-                 "-Y cfg")
-    if not r.violation or "Termination" not in r.out:
+    r = tlc.must(R["MC_Y"], "-Y cfg")
+    if not r.violation or "Termination" not in r.violation:
         raise CheckError("PassLoop(ThrowErrors=TRUE) no longer shows the -Y oscillation")
     rep.model("PassLoop_MC(86, -Y)", r)
     rep.part("PassLoop_MC(86, -Y)", termination="violated (expected: -Y oscillation)",
@@ -99,15 +137,17 @@ def model_checks(rep, tier):
 # ------------------------------------------------------------------------------------------------
 # (G)
 # ------------------------------------------------------------------------------------------------
-def generate(rep, cls, tier, r):
+def generate(rep, cls, tier, r, R):
     """-> list of TLC exports for class cls"""
-    g = tlc.must(tlc.run("PassLoop_Gen", "PassLoop_Gen_%s.cfg" % cls, workers=1, timeout=900, mem="8g",
-                         tags=("OUT",)), "PassLoop_Gen %s" % cls)
-    rep.model("PassLoop_Gen(%s)" % cls, g)
+    g = tlc.must(R["Gen_" + cls], "PassLoop_Gen %s" % cls)
+    if g.violation:
+        raise CheckError("the repaired pass-loop design violates its own properties (PassLoop_Gen_%s.cfg): %s"
+                         % (cls, g.violation[:1500]))
+    rep.model("PassLoop_Gen(%s: invariants + Termination + export)" % cls, g)
     exhaustive = [x for (t, x) in g.printed]
-    nsim = 300 if tier == "quick" else 6000
-    s = tlc.must(tlc.run("PassLoop_Gen", "PassLoop_Sim_%s.cfg" % cls, workers=4, simulate=nsim, depth=140,
-                         timeout=900, mem="8g", tags=("OUT",)), "PassLoop_Sim %s" % cls)
+    s = tlc.must(R["Sim_" + cls], "PassLoop_Sim %s" % cls)
+    if s.violation:
+        raise CheckError("PassLoop_Sim_%s.cfg: %s" % (cls, s.violation[:1500]))
     seen = set()
     sim = []
     for (t, x) in s.printed:
@@ -122,7 +162,7 @@ def generate(rep, cls, tier, r):
         small = [x for x in exhaustive if len(x["prog"]) <= 3]
         big = [x for x in exhaustive if len(x["prog"]) > 3]
         r.shuffle(big)
-        quota = {"68k": 2600, "abs": 900, "86": 1500}[cls]
+        quota = {"68k": 1500, "abs": 500, "86": 800}[cls]
         exhaustive = small + big[:quota]
     else:
         if len(exhaustive) > 60000:
@@ -350,8 +390,9 @@ def monitor(rep, name, runs):
     flat.append({"a": "END"})
     path = os.path.join(scratch(), "trace-%s.ndjson" % name)
     tlc.write_ndjson(flat, path)
-    r = tlc.run("PassLoop_Trace", "PassLoop_Trace.cfg", workers=1, env={"TRACE": path}, timeout=1700, mem="10g",
-                tags=("OUT",))
+    with Phase("PassLoop_Trace %s: %d events" % (name, len(flat))):
+        r = tlc.run("PassLoop_Trace", "PassLoop_Trace.cfg", workers=1, env={"TRACE": path}, timeout=1700,
+                    mem="10g", tags=("OUT",))
     os.unlink(path)
     if r.error or r.violation:
         raise CheckError("PassLoop_Trace(%s) did not consume the trace: %s" % (name, (r.error or r.violation)[:800]))
@@ -405,8 +446,6 @@ def compare_passes(rep, case, dia, trace):
             labels[e["name"].lower()] = e["val"]
         elif e["e"] == "pass_end":
             passes.append({"repass": bool(e["repass"]), "errs": e["errs"], "vals": dict(labels)})
-        elif e["e"] == "extra_pass":
-            break
     model = case["hist"]
     obs = passes[:len(model)] if len(passes) >= len(model) else passes
     ok = len(passes) == len(model)
@@ -435,6 +474,16 @@ def report_monitor(rep, v, what, files, case):
                       key={"kind": "trace-" + b, "patched": v["patched"]})
 
 
+def _uses_assume(path):
+    """classification only (known-finding key): does the source contain an ASSUME statement"""
+    import re
+    try:
+        with open(path, "rb") as f:
+            return bool(re.search(rb"^[^;\n]*\bassume\b", f.read(), re.I | re.M))
+    except OSError:
+        return False
+
+
 def corpus_part(rep, bld, tier):
     tests = aslrun.corpus()
     r = rng("c01/corpus")
@@ -456,17 +505,21 @@ def corpus_part(rep, bld, tier):
         if n.rc != 0 or n.p is None:
             continue                    # tests that are expected to fail to assemble have no code to compare
         patched = bool(x.trace) and any(e["e"] == "sym_mod" and not e.get("chg") for e in x.trace)
+        assume = _uses_assume(t[2])
         if x.rc == 97 or x.timeout:
             rep.violation("corpus test %s: with one forced extra pass the assembly does not end" % t[0],
                           case=t[0], key={"kind": "livelock", "patched": patched, "opt_Y": False})
+            continue
         elif x.rc != 0 or x.p is None:
             rep.violation("corpus test %s: forced extra pass ends with status %s: %s"
                           % (t[0], x.rc, (x.out + x.err)[-300:]), case=t[0],
-                          key={"kind": "extra-pass-status", "patched": patched})
+                          key={"kind": "extra-pass-status", "patched": patched, "uses_assume": assume})
+            continue
         elif x.p != n.p:
             rep.violation("corpus test %s: one forced extra pass changed the code file" % t[0], case=t[0],
                           files={"normal.p": n.p, "extra.p": x.p},
-                          key={"kind": "extra-pass-differs", "patched": patched})
+                          key={"kind": "extra-pass-differs", "patched": patched, "uses_assume": assume})
+            continue
         if x.trace:
             runs.append((t[0], x.trace))
     verdicts = monitor(rep, "corpus", runs)
@@ -481,12 +534,15 @@ def y_option_part(rep, bld, cases86, tier):
     r = rng("c01/Y")
     pool = [c for c in cases86 if any(it["k"] == "rel" for it in c["prog"])]
     r.shuffle(pool)
-    pool = pool[:150 if tier == "quick" else 1500]
+    n = 500 if tier == "quick" else 3000
+    # programs for which the model predicts a range error are where -Y changes the behaviour
+    pool = [c for c in pool if c["errs"] > 0][:n] + [c for c in pool if c["errs"] == 0][:n // 5]
     todo = []
     for ci, case in enumerate(pool):
         src, choice = _jobs_for(case, "8086", "Y%d" % ci)
         todo.append((case, "8086", src, choice, ["-Y"]))
-    results = _run_cases(bld, todo)
+    with Phase("option -Y: %d programs x 2 runs" % len(todo)):
+        results = _run_cases(bld, todo)
     obs = []
     for idx, ((case, dia, src, choice, opts), (res, rex)) in enumerate(zip(todo, results)):
         rep.evaluated()
@@ -515,9 +571,30 @@ def y_option_part(rep, bld, cases86, tier):
     rep.traces(len(obs))
 
 
+def evaluate(rep, bld, R, tier, parts=("G", "Y", "VG", "VC")):
+    """everything that runs the real binaries, given the TLC results R of run_tlc_jobs"""
+    r = rng("c01")
+    cls_todo = {}
+    cases86 = []
+    for cls in CLASSES:
+        cases = generate(rep, cls, tier, r, R)
+        if cls == "86":
+            cases86 = cases
+        if "G" in parts:
+            todo, results = replay_class(rep, bld, cls, cases, tier)
+            cls_todo[cls] = todo
+    if "Y" in parts:
+        y_option_part(rep, bld, cases86, tier)
+    if bld.hooks and "VG" in parts and cls_todo:
+        trace_generated(rep, bld, cls_todo, tier)
+    if bld.hooks and "VC" in parts:
+        corpus_part(rep, bld, tier)
+    for k, n in _drifts.items():
+        rep.part("drift", **{k: n})
+
+
 def main(tier):
     rep = Report(PID, tier)
-    r = rng("c01")
     bld = build.get("hook")
     rep.assumptions += [
         "TLC explores PassLoop only up to the stated bounds (<= 4/5 items exhaustively, <= 12 items sampled)",
@@ -526,29 +603,67 @@ def main(tier):
         "termination is observed under a cap of %d passes (hook ASL_VERIF_MAX_PASSES, exit 97)" % CAP,
         "hooks: %s" % ("sym/ref/pass events, pass cap, forced extra pass" if bld.hooks
                        else "unavailable: black-box replay only, livelock = timeout, no extra-pass / trace parts")]
-    with Phase("(M) model checking"):
-        model_checks(rep, tier)
-    cls_todo = {}
-    cases86 = []
-    for cls in CLASSES:
-        with Phase("(G) generate %s" % cls):
-            cases = generate(rep, cls, tier, r)
-        todo, results = replay_class(rep, bld, cls, cases, tier)
-        cls_todo[cls] = todo
-        if cls == "86":
-            cases86 = cases
-    y_option_part(rep, bld, cases86, tier)
-    if bld.hooks:
-        trace_generated(rep, bld, cls_todo, tier)
-        corpus_part(rep, bld, tier)
-    for k, n in _drifts.items():
-        rep.part("drift", **{k: n})
+    reuse = os.environ.get("C01_REUSE_TLC")        # selftest accelerator: TLC results of the parent run
+    if reuse and os.path.exists(reuse):
+        import pickle
+        with open(reuse, "rb") as f:
+            R = pickle.load(f)
+    else:
+        with Phase("TLC: (M) model checking + (G) exports"):
+            R = run_tlc_jobs(tier)
+        if reuse:
+            import pickle
+            with open(reuse, "wb") as f:
+                pickle.dump(R, f)
+    model_checks(rep, tier, R)
+    evaluate(rep, bld, R, tier)
     return rep.finish(
         rule="programs = every PassLoop program up to the bound (TLC breadth-first export, quick: all of <= 3 items "
              "+ seed-chosen 4-item ones) + TLC-simulated programs of 5..12 items, each rendered for every dialect of "
              "its target class; distinct = distinct rendered source, non-trivial = contains a symbol reference; "
              "plus the 201 golden programs with a forced extra pass",
         exhaustive=False)
+
+
+def selftest(tier):
+    """binding demonstration: every stored mutation of the anchored code (selftest/C01-*.diff) must make the
+    check report a VIOLATION; the unchanged tree must not.  Runs ./check in sub-processes on scratch copies."""
+    import glob
+    import subprocess
+    import sys
+    from vlib.common import REPO, VERIF
+    work = os.path.join(scratch(), "selftest")
+    os.makedirs(work, exist_ok=True)
+    pick = os.path.join(work, "tlc.pickle")
+    env = dict(os.environ, C01_REUSE_TLC=pick, VERIF_CACHE=os.path.join(work, "cache"))
+    failed = 0
+
+    def run(repo):
+        e = dict(env, VERIF_REPO=repo)
+        p = subprocess.run([sys.executable, os.path.join(VERIF, "check"), PID, "--tier", tier], env=e,
+                           stdout=subprocess.PIPE, stderr=subprocess.STDOUT)
+        out = p.stdout.decode("utf-8", "replace")
+        return p.returncode, [l for l in out.splitlines() if l.startswith(("VIOLATION", "  ", "CHECK-ERROR"))][:6]
+    rc, lines = run(REPO)
+    log("[selftest] unchanged tree: exit %d" % rc)
+    if rc != 0:
+        failed += 1
+    for d in sorted(glob.glob(os.path.join(VERIF, "selftest", "C01-*.diff"))):
+        copy = os.path.join(work, "repo")
+        shutil.rmtree(copy, ignore_errors=True)
+        shutil.copytree(REPO, copy, symlinks=True, ignore=shutil.ignore_patterns(".git"))
+        p = subprocess.run(["patch", "-p1", "-s", "-i", d], cwd=copy, stdout=subprocess.PIPE, stderr=subprocess.STDOUT)
+        if p.returncode != 0:
+            log("[selftest] %s does not apply (tree changed?): %s" % (os.path.basename(d), p.stdout.decode()[-200:]))
+            failed += 1
+            continue
+        rc, lines = run(copy)
+        log("[selftest] %s: exit %d %s" % (os.path.basename(d), rc, "caught" if rc == 1 else "NOT CAUGHT"))
+        for l in lines[:4]:
+            log("      " + l[:300])
+        if rc != 1:
+            failed += 1
+    return 1 if failed else 0
 
 
 def replay(path):
